@@ -18,7 +18,13 @@
                           insertion order, the new state is `URel`-related to the abstract machine whose stable block is `g`
                           (height 0), whose stable table/persisted accounts are what `g` held, with no unconfirmed block
     utree_boot_refines    run-level: every run of the driver's machine from the EMPTY database whose Puts respect the usage
-                          guard is either still in the genesis phase (`GRel`) or related to the abstract machine (`URel`)
+                          guard is either still in the genesis phase (`GRel`) or related to SOME state of the abstract machine
+                          (`URel`) — the statement throws the history link away ("some abstract state explains the heap")
+    utree_boot_reach      the same run-level statement WITH the history link: the abstract state is `AReach`-able from
+                          `aGenesis w' g` for some genesis block `g` and some ghost table `w'` of the genesis phase
+  The run-level theorems ask `GuardedU` for the WHOLE run, i.e. also for the Puts of the genesis phase, although the proof
+  never uses the guard there (`genesis_put_effect` needs none): they therefore say nothing about runs with duplicate /
+  unknown-label Puts in the genesis phase; for those only the step theorems (`genesis_step`, `genesis_put_effect`) apply.
   ASSUMPTION made explicit: the phase starts from the empty database.  A database with persisted accounts but no stable
   block (only reachable by a crash inside the very first `blockCommit`) is outside `GRel`.
 -/
@@ -146,6 +152,20 @@ theorem utree_boot_refines : ∀ (ops : List UOp) {u : St} {w : Nat → Nat → 
 theorem utree_boot_from_empty (E : Enc L) (ops : List UOp) (hg : GuardedU E (openDb [] [] none) ops) :
     (∃ w', GRel E (urun E (openDb [] [] none) ops) w') ∨ (∃ a, URel E (urun E (openDb [] [] none) ops) a) :=
   utree_boot_refines ops (utree_inv_empty E) hg
+
+/-- **utree_boot_reach**: `utree_boot_refines` with the history link kept: once the first `SetStableBlock(g)` has been
+    accepted, the abstract state related to the driver's state is REACHED (`AReach`: abstract operations and restarts)
+    from `aGenesis w' g`, where `w'` is the ghost table of the genesis phase at that moment (`GRel E _ w'`: what every
+    height-0 block held).  The guard is still asked for the whole run (unused in the genesis phase). -/
+theorem utree_boot_reach : ∀ (ops : List UOp) {u : St} {w : Nat → Nat → Option Nat}, GRel E u w → GuardedU E u ops →
+    (∃ w', GRel E (urun E u ops) w') ∨
+    (∃ w' g a, AReach (aGenesis w' g) a ∧ URel E (urun E u ops) a)
+  | [], u, w, hr, _ => Or.inl ⟨w, hr⟩
+  | op :: ops, u, w, hr, ⟨_, g2⟩ => by
+    rcases genesis_step hr op with ⟨w', h⟩ | ⟨g, _, h⟩
+    · exact utree_boot_reach ops h g2
+    · obtain ⟨a2, r2, h2⟩ := utree_run_refines ops h g2
+      exact Or.inr ⟨w, g, a2, r2, h2⟩
 
 /-! non-vacuity and the dye-0 behaviour on a concrete run (kernel evaluation): two height-0 blocks, each writes account 7;
     neither sees the other's value; a second Put of block 0 is dropped; `SetStableBlock(0)` drops block 1 and persists 5 -/
